@@ -1,6 +1,6 @@
 (* C06 correspondence: runs of a map in pieces (fixed_indices) and through learners; the exhaustive
    slice/int table.  Model observation `run`, executable statement `spec_ok`. *)
-From Verif Require Export Base.Prelude Base.StrUtil Base.Index Base.NdArr Base.PyRange Base.StrOrd
+From Verif Require Export Base.Prelude Base.StrUtil Base.Index Base.NdArr Base.PyRange Base.StrSeq
   Model.MapSpec Model.MapSpecSpec Model.MapRun Model.MapDenote Model.SymBody Model.MapResume Model.FixedSpec.
 
 Record req := { q_funcs : list mfunc; q_inputs : env; q_internal : shape_dict }.
